@@ -5,12 +5,20 @@ import (
 	"context"
 	"crypto/tls"
 	"encoding/binary"
+	"example.com/scion-time/net/scion"
+	"example.com/scion-time/net/udp"
 	"fmt"
+	"github.com/scionproto/scion/pkg/addr"
+	"github.com/scionproto/scion/pkg/snet"
+	snetpath "github.com/scionproto/scion/pkg/snet/path"
+	"io"
 	"log/slog"
 	"math/rand/v2"
 	"net"
 	"net/netip"
 	"strconv"
+	"strings"
+	"sync"
 	"time"
 
 	"example.com/scion-time/core/client"
@@ -614,6 +622,9 @@ func init() {
 		}
 		srv.Close()
 		c20NamedHost(r)
+		if r.Only() == "" || strings.HasPrefix(r.Only(), "quic") {
+			c20QUIC(r)
+		}
 		c20RealServer(r)
 		r.Sample(map[string]any{"conformant_stream": ev.Hex(mkValid(2, "", 0)(1)), "meaning": "next-protocol, algorithm 15, two cookies, end-of-message"})
 		r.Assume("server records carry IP literals (no resolver in the sandbox); TLS 1.3 with a self-signed certificate and InsecureSkipVerify")
@@ -767,5 +778,191 @@ func c20RealServer(r *ev.Run) {
 				r.Class(fmt.Sprintf("real-server-agreement:offer-of-%d,15-first=%v", len(offer), offer[0] == 15))
 			}
 		}
+	}
+}
+
+// c20QUIC: the same history clause over SCION/QUIC (same ISD-AS, no daemon): a scripted
+// key-exchange server on the project's own QUIC-over-SCION transport answers the n-th
+// connection with the n-th record stream. Oracle as for TLS: defaults when no server/port
+// record is sent, nothing of an earlier exchange in a later one, keys = the server's
+// exporter values.
+func c20QUIC(r *ev.Run) {
+	ia, _ := addr.ParseIA("1-ff00:0:110")
+	srvIP, cliIP := blockIP(r, 20, 41), blockIP(r, 20, 42)
+	probe, err := net.ListenUDP("udp", &net.UDPAddr{IP: srvIP.AsSlice()})
+	if err != nil {
+		r.Inconclusive("bind: " + err.Error())
+		return
+	}
+	port := probe.LocalAddr().(*net.UDPAddr).Port
+	probe.Close()
+	cert, err := peer.SelfSignedCert(srvIP.AsSlice())
+	if err != nil {
+		r.Inconclusive(err.Error())
+		return
+	}
+	srvAddr := udp.UDPAddr{IA: ia, Host: &net.UDPAddr{IP: srvIP.AsSlice(), Port: port}}
+	l, err := scion.ListenQUIC(context.Background(), srvAddr, &tls.Config{Certificates: []tls.Certificate{cert}, NextProtos: []string{"ntske/1"}, MinVersion: tls.VersionTLS13}, nil)
+	if err != nil {
+		r.Inconclusive("quic listener: " + err.Error())
+		return
+	}
+	defer l.Close()
+	var mu sync.Mutex
+	var scripts [][]byte
+	var c2s, s2c [][]byte
+	served := 0
+	go func() {
+		for {
+			conn, err := l.Accept(context.Background())
+			if err != nil {
+				return
+			}
+			go func() {
+				stream, err := conn.AcceptStream(context.Background())
+				if err != nil {
+					return
+				}
+				req := make([]byte, 0, 64)
+				b := make([]byte, 64)
+				for !bytes.HasSuffix(req, []byte{0x80, 0x00, 0x00, 0x00}) {
+					n, err := stream.Read(b)
+					req = append(req, b[:n]...)
+					if err != nil {
+						return
+					}
+				}
+				var d ntske.Data
+				_ = ntske.ExportKeys(conn.ConnectionState().TLS, &d)
+				mu.Lock()
+				// connections beyond the scripted chain: a conformant answer that names another NTP port
+				script := peer.KEMessage(15, "", 7777, c20Cookies(100+served, 8))
+				if served < len(scripts) {
+					script = scripts[served]
+				}
+				served++
+				c2s, s2c = append(c2s, d.C2sKey), append(s2c, d.S2cKey)
+				mu.Unlock()
+				_, _ = stream.Write(script)
+				_ = stream.Close()
+				_, _ = io.Copy(io.Discard, stream)
+			}()
+		}
+	}()
+	other := blockIP(r, 20, 43).String()
+	type step struct {
+		name       string
+		stream     []byte
+		ok         bool
+		srv        string
+		port       uint16
+		useCookies int // cookies to draw after a successful exchange (empties the pool when 8)
+	}
+	def := srvIP.String()
+	steps := []step{
+		{"named server and port", peer.KEMessage(15, other, 7777, c20Cookies(1, 8)), true, other, 7777, 8},
+		{"no algorithm record", func() []byte {
+			var b []byte
+			b = append(b, peer.KERecord(1, true, []byte{0, 0})...)
+			for _, c := range c20Cookies(2, 8) {
+				b = append(b, peer.KERecord(5, false, c)...)
+			}
+			return append(b, peer.KERecord(0, true, nil)...)
+		}(), false, "", 0, 0},
+		{"no server and no port record", peer.KEMessage(15, "", 0, c20Cookies(3, 8)), true, def, 10123, 8},
+		{"error record after the cookies", append(peer.KEMessage(15, other, 7777, c20Cookies(4, 8))[:len(peer.KEMessage(15, other, 7777, c20Cookies(4, 8)))-4], append(peer.KERecord(2, true, []byte{0, 1}), peer.KERecord(0, true, nil)...)...), false, "", 0, 0},
+		{"defaults again", peer.KEMessage(15, "", 0, c20Cookies(5, 8)), true, def, 10123, 8},
+	}
+	for _, st := range steps {
+		scripts = append(scripts, st.stream)
+	}
+	f := &ntske.Fetcher{Log: slog.New(slog.DiscardHandler), Port: strconv.Itoa(port)}
+	f.TLSConfig = tls.Config{InsecureSkipVerify: true, ServerName: srvIP.String(), MinVersion: tls.VersionTLS13, NextProtos: []string{"ntske/1"}}
+	f.QUIC.Enabled = true
+	f.QUIC.LocalAddr = udp.UDPAddr{IA: ia, Host: &net.UDPAddr{IP: cliIP.AsSlice()}}
+	f.QUIC.RemoteAddr = srvAddr
+	for i, st := range steps {
+		id := fmt.Sprintf("quic%d", i)
+		ctx, cancel := context.WithTimeout(context.Background(), 10*time.Second)
+		d, err := f.FetchData(ctx)
+		cancel()
+		r.Eval(1)
+		mu.Lock()
+		n := served
+		var kc, ks []byte
+		if n > 0 && n <= len(c2s) {
+			kc, ks = c2s[n-1], s2c[n-1]
+		}
+		mu.Unlock()
+		w := map[string]any{"exchange": i + 1, "stream": st.name, "error": fmt.Sprint(err), "server": d.Server, "port": d.Port, "algo": d.Algo, "connections_seen": n}
+		if n != i+1 {
+			r.Violation("Fetcher.FetchData(QUIC)|wrong-value:attempt did not open a new connection (or opened more than one)|chain over SCION/QUIC", id, w)
+			return
+		}
+		if !st.ok {
+			if err == nil {
+				r.Violation("Fetcher.FetchData(QUIC)|wrong-value:exchange that must fail succeeded|"+st.name, id, w)
+				return
+			}
+			r.Class("quic-chain:refused:" + st.name)
+			continue
+		}
+		if err != nil {
+			r.Violation("Fetcher.FetchData(QUIC)|wrong-value:conformant exchange refused|"+st.name, id, w)
+			return
+		}
+		if !bytes.Equal(d.C2sKey, kc) || !bytes.Equal(d.S2cKey, ks) || d.Algo != 15 {
+			r.Violation("Fetcher.FetchData(QUIC)|wrong-value:keys differ from the server's exporter values|"+st.name, id, w)
+		}
+		if d.Server != st.srv || d.Port != st.port {
+			w["want_server"], w["want_port"] = st.srv, st.port
+			r.Violation("Fetcher.FetchData(QUIC)|wrong-value:NTP server or port is not the one named in this exchange (or the default)|"+st.name, id, w)
+			return
+		}
+		r.Class("quic-chain:accepted:" + st.name)
+		for k := 1; k < st.useCookies; k++ {
+			if _, err := f.FetchData(context.Background()); err != nil {
+				r.Violation("Fetcher.FetchData(QUIC)|wrong-value:pool of an accepted exchange not handed out|"+st.name, id, w)
+				return
+			}
+		}
+	}
+	// ---- the real SCION client wired the way the time service wires it: the address it is asked to
+	// measure against is also the address of its key-exchange server. The exchange names another NTP
+	// port; nobody answers there, so every measurement spends a cookie, and when the pool is empty
+	// the client must come back to the key-exchange server for a new exchange.
+	mu.Lock()
+	before := served
+	mu.Unlock()
+	remote := udp.UDPAddr{IA: ia, Host: &net.UDPAddr{IP: srvIP.AsSlice(), Port: port}}
+	local := udp.UDPAddr{IA: ia, Host: &net.UDPAddr{IP: cliIP.AsSlice()}}
+	c := &client.SCIONClient{Log: slog.New(slog.DiscardHandler)}
+	c.Auth.NTSEnabled = true
+	c.Auth.NTSKEFetcher.TLSConfig = tls.Config{InsecureSkipVerify: true, ServerName: srvIP.String(), MinVersion: tls.VersionTLS13, NextProtos: []string{"ntske/1"}}
+	c.Auth.NTSKEFetcher.Port = strconv.Itoa(port)
+	c.Auth.NTSKEFetcher.Log = slog.New(slog.DiscardHandler)
+	c.Auth.NTSKEFetcher.QUIC.Enabled = true
+	c.Auth.NTSKEFetcher.QUIC.LocalAddr = local
+	c.Auth.NTSKEFetcher.QUIC.RemoteAddr = remote
+	pth := snetpath.Path{Src: ia, Dst: ia, DataplanePath: snetpath.Empty{}, NextHop: remote.Host}
+	for k := 0; k < 12; k++ {
+		ctx, cancel := context.WithTimeout(context.Background(), 400*time.Millisecond)
+		_ = c02Recover(func() {
+			_, _, _ = client.MeasureClockOffsetSCION(ctx, slog.New(slog.DiscardHandler), []*client.SCIONClient{c}, local, remote, []snet.Path{pth})
+		})
+		cancel()
+		r.Eval(1)
+	}
+	mu.Lock()
+	after := served
+	mu.Unlock()
+	w := map[string]any{"measurement_calls": 12, "key_exchanges_seen": after - before, "address_object_after": remote.Host.String(), "key_exchange_server": fmt.Sprintf("%s:%d", srvIP, port)}
+	if after-before < 2 {
+		r.Violation("scion-client|wrong-value:client with an empty cookie pool does not return to its key-exchange server (its address was overwritten with the NTP server named in the first exchange)", "quic-rekey", w)
+	} else {
+		r.Class("quic-rekey:client returns to the key-exchange server when its pool is empty")
+	}
+	if remote.Host.Port != port {
+		r.Violation("scion-client|state:the caller's address object was overwritten with the server and port named in the key exchange", "quic-rekey", w)
 	}
 }
